@@ -1,20 +1,35 @@
 package main
 
-// From a failed obligation to a replay file (and, where a template exists, a run of the
-// counterexample against the real code through `go test -overlay`).
+// From a failed obligation to a replay file. Where a replay harness exists for the
+// obligation's function, the solver's counterexample is rendered into an in-package Go test,
+// injected with `go test -overlay` (nothing is written to the repository) and run against the
+// real code with a property-level oracle.
 
 import (
+	"encoding/json"
 	"fmt"
 	"math/big"
 	"os"
+	"os/exec"
+	"path/filepath"
+	"regexp"
 	"sort"
 	"strings"
+	"time"
 )
 
 func negPow(n uint) *big.Int { return new(big.Int).Neg(pow2(n)) }
 
 // classify normalises a counterexample into a class name for known-finding identity.
 func classify(P *Program, ob *Obligation) string {
+	if ob == nil || ob.Result.Model == nil {
+		return ""
+	}
+	for _, h := range replayHarnesses {
+		if h.match(ob.Name) && h.class != nil {
+			return h.class(P, ob)
+		}
+	}
 	return ""
 }
 
@@ -36,23 +51,23 @@ func writeReplay(P *Program, opt Options, path, name, reason string, ob *Obligat
 					fmt.Fprintf(&sb, "  %s = %s\n", src, ob.Result.Model[k])
 				}
 			}
-			sb.WriteString("model (all constants):\n")
-			for _, k := range ks {
-				v := ob.Result.Model[k]
-				if len(v) < 200 {
-					fmt.Fprintf(&sb, "  %s = %s\n", k, v)
-				}
+			if cl := classify(P, ob); cl != "" {
+				fmt.Fprintf(&sb, "class: %s\n", cl)
 			}
-			if out, ok := runReplay(P, opt, ob); out != "" {
+			out, ok := runReplay(P, opt, ob)
+			if out != "" {
 				sb.WriteString("replay against the real code:\n" + out + "\n")
 				if ok {
 					suffix = ""
+					sb.WriteString("replay verdict: the counterexample reproduces on the real code\n")
+				} else {
+					sb.WriteString("replay verdict: the counterexample did not reproduce (or no oracle applies)\n")
 				}
 			}
 		}
 		raw := ob.Result.Raw
-		if len(raw) > 4000 {
-			raw = raw[:4000] + "…"
+		if len(raw) > 6000 {
+			raw = raw[:6000] + "…"
 		}
 		sb.WriteString("solver output:\n" + raw + "\n")
 	}
@@ -60,8 +75,197 @@ func writeReplay(P *Program, opt Options, path, name, reason string, ob *Obligat
 	return suffix
 }
 
-// runReplay renders and runs the replay template for the obligation's function, if any.
+type replayHarness struct {
+	match  func(name string) bool
+	pkgDir string // directory relative to the repository root
+	render func(P *Program, ob *Obligation) (src string, ok bool)
+	class  func(P *Program, ob *Obligation) string
+	race   bool
+}
+
+var replayHarnesses []replayHarness
+
+// runReplay renders and runs the replay harness for the obligation's function, if any.
 // It returns the output and whether the counterexample reproduced on the real code.
 func runReplay(P *Program, opt Options, ob *Obligation) (string, bool) {
+	for _, h := range replayHarnesses {
+		if !h.match(ob.Name) {
+			continue
+		}
+		src, ok := h.render(P, ob)
+		if !ok {
+			return "replay harness could not map the model to inputs", false
+		}
+		return runOverlayTest(opt, h.pkgDir, src, h.race)
+	}
+	return "", false
+}
+
+// runOverlayTest: exit status 1 with "REPRODUCED" in the output means the oracle failed on
+// the real code with the given inputs.
+func runOverlayTest(opt Options, pkgDir, src string, race bool) (string, bool) {
+	tmp, err := os.MkdirTemp(filepath.Join(opt.VerifDir, "out"), "replay-")
+	if err != nil {
+		return "cannot create scratch directory: " + err.Error(), false
+	}
+	defer os.RemoveAll(tmp)
+	testFile := filepath.Join(tmp, "zz_gowp_replay_test.go")
+	os.WriteFile(testFile, []byte(src), 0o644)
+	target := filepath.Join(opt.Repo, pkgDir, "zz_gowp_replay_test.go")
+	ov, _ := json.Marshal(map[string]interface{}{"Replace": map[string]string{target: testFile}})
+	ovFile := filepath.Join(tmp, "overlay.json")
+	os.WriteFile(ovFile, ov, 0o644)
+	args := []string{"test", "-overlay", ovFile, "-vet=off", "-count=1", "-timeout", "60s", "-run", "TestGowpReplay", "-v"}
+	if race {
+		args = append(args, "-race")
+	}
+	args = append(args, "./"+pkgDir)
+	cmd := exec.Command("go", args...)
+	cmd.Dir = opt.Repo
+	cmd.Env = append(os.Environ(), "GOFLAGS=-mod=mod", "GOPROXY=off", "GOSUMDB=off", "GOTOOLCHAIN=local")
+	done := make(chan struct{})
+	var out []byte
+	go func() {
+		out, _ = cmd.CombinedOutput()
+		close(done)
+	}()
+	select {
+	case <-done:
+	case <-time.After(120 * time.Second):
+		if cmd.Process != nil {
+			cmd.Process.Kill()
+		}
+		<-done
+	}
+	s := string(out)
+	if len(s) > 6000 {
+		s = s[:6000] + "…"
+	}
+	text := "--- generated test ---\n" + src + "\n--- output ---\n" + s
+	return text, strings.Contains(s, ": REPRODUCED")
+}
+
+// ---------------------------------------------------------------------------
+// model access
+
+func modelInt(ob *Obligation, name string) (string, bool) {
+	v, ok := ob.Result.Model[name]
+	if !ok {
+		return "", false
+	}
+	v = strings.TrimSpace(v)
+	if regexp.MustCompile(`^-?[0-9]+$`).MatchString(v) {
+		return v, true
+	}
+	return "", false
+}
+
+// sexpr parsing for datatype values in models
+type sx struct {
+	atom string
+	list []*sx
+}
+
+func parseSx(s string) *sx {
+	toks := regexp.MustCompile(`\(|\)|[^\s()]+`).FindAllString(s, -1)
+	pos := 0
+	var rec func() *sx
+	rec = func() *sx {
+		if pos >= len(toks) {
+			return &sx{}
+		}
+		t := toks[pos]
+		pos++
+		if t == "(" {
+			n := &sx{}
+			for pos < len(toks) && toks[pos] != ")" {
+				n.list = append(n.list, rec())
+			}
+			pos++
+			return n
+		}
+		return &sx{atom: t}
+	}
+	return rec()
+}
+
+func (n *sx) intVal() (string, bool) {
+	if n.atom != "" {
+		if regexp.MustCompile(`^[0-9]+$`).MatchString(n.atom) {
+			return n.atom, true
+		}
+		return "", false
+	}
+	if len(n.list) == 2 && n.list[0].atom == "-" {
+		if v, ok := n.list[1].intVal(); ok {
+			return "-" + v, true
+		}
+	}
+	return "", false
+}
+
+// structModel reads a datatype value (mk_S_x f1 f2 ...) into field name -> printed value.
+func structModel(val string, dtName string) map[string]string {
+	d, ok := theU.datatypes[dtName]
+	if !ok {
+		return nil
+	}
+	n := parseSx(val)
+	if len(n.list) != len(d.Fields)+1 || n.list[0].atom != "mk_"+dtName {
+		return nil
+	}
+	out := map[string]string{}
+	for i, f := range d.Fields {
+		el := n.list[i+1]
+		name := strings.TrimPrefix(f, dtName+"_")
+		if v, ok := el.intVal(); ok {
+			out[name] = v
+		} else if el.atom != "" {
+			out[name] = el.atom
+		}
+	}
+	return out
+}
+
+// arrayAt evaluates a model array value ((as const ..) d) / (store a i v) at an integer index.
+func arrayAt(val string, idx string) (string, bool) {
+	n := parseSx(val)
+	for {
+		if len(n.list) == 4 && n.list[0].atom == "store" {
+			if iv, ok := n.list[2].intVal(); ok && iv == idx {
+				return sxString(n.list[3]), true
+			}
+			n = n.list[1]
+			continue
+		}
+		if len(n.list) == 2 && len(n.list[0].list) == 3 && n.list[0].list[0].atom == "as" {
+			return sxString(n.list[1]), true
+		}
+		// z3 sometimes prints (lambda ((x Int)) body) or (_ as-array k): give up
+		return "", false
+	}
+}
+
+func sxString(n *sx) string {
+	if v, ok := n.intVal(); ok {
+		return v
+	}
+	if n.atom != "" {
+		return n.atom
+	}
+	var parts []string
+	for _, c := range n.list {
+		parts = append(parts, sxString(c))
+	}
+	return "(" + strings.Join(parts, " ") + ")"
+}
+
+// heapField reads field `key` (e.g. F$bState$current) of object ref from the model's entry heap.
+func heapField(ob *Obligation, key, ref string) (string, bool) {
+	for _, suffix := range []string{"@0"} {
+		if v, ok := ob.Result.Model[smtName(key)+suffix]; ok {
+			return arrayAt(v, ref)
+		}
+	}
 	return "", false
 }
